@@ -70,7 +70,17 @@ func (j *rangeJudge) check(pi int, r hcl.Range) (clause, detail string) {
 	}
 	n := len(f.Text)
 	if r.Start.Byte < 0 || r.End.Byte > n || r.Start.Byte > r.End.Byte {
-		return "out-of-bounds", fmt.Sprintf("range %v (bytes %d..%d) in a file of %d bytes", r, r.Start.Byte, r.End.Byte, n)
+		clause := "beyond-eof"
+		switch {
+		case r.End == (hcl.Pos{}) && r.Start.Byte > 0:
+			// the parser's recovery leaves the end of an unterminated construct zero
+			clause = "zero-end"
+		case r.Start.Byte > r.End.Byte:
+			clause = "inverted"
+		case r.Start.Byte < 0:
+			clause = "negative"
+		}
+		return clause, fmt.Sprintf("range %v (bytes %d..%d) in a file of %d bytes", r, r.Start.Byte, r.End.Byte, n)
 	}
 	for _, p := range []hcl.Pos{r.Start, r.End} {
 		if !h.OnBoundary(f.Text, p.Byte) {
